@@ -152,7 +152,7 @@ Proof.
   - exists (p0 ++ hss_host false HR). rewrite E0 at 1. rewrite <- E1 at 1. rewrite <- !app_assoc. reflexivity.
 Qed.
 
-Lemma sp_class_ok_nodrive R : has_drive_segment R = false -> sp_class_ok (drop_sl R) = true.
+Lemma sp_class_ok_nodrive_from prev R : has_drive_segment_from prev R = false -> sp_class_ok (drop_sl R) = true.
 Proof.
   intros H. unfold sp_class_ok. destruct (sp_path_text_suffix (drop_sl R)) as [pre E].
   set (X := sp_path_text (drop_sl R)) in *.
@@ -162,11 +162,14 @@ Proof.
   destruct (is_sl c) eqn:Esl.
   - change (@nil N) with (upe in_path_set []).
     apply (spath_ok_s_raw r c [] []); [unfold is_path_end; unfold is_sl in Esl; lia | reflexivity | reflexivity|].
-    cbn [app]. unfold has_drive_segment in H. rewrite ER in H. exact (hds_suffix _ None c r H).
+    cbn [app]. rewrite ER in H. exact (hds_suffix _ prev c r H).
   - cbn [spath_ok_s]. rewrite Esl.
     assert (is_qh c = true) as -> by (unfold is_aes, is_ae in Eae; unfold is_sl in Esl; unfold is_qh; lia).
     reflexivity.
 Qed.
+
+Lemma sp_class_ok_nodrive R : has_drive_segment R = false -> sp_class_ok (drop_sl R) = true.
+Proof. exact (sp_class_ok_nodrive_from None R). Qed.
 
 (* ================= Known_C01 on a text with a special scheme ================= *)
 Lemma scheme_cp_not_colon c : is_scheme_cp c = true -> (c =? 58) = false.
